@@ -51,7 +51,7 @@ def run(tier: str, seed: int) -> int:
     # ---- (1) TLC laws on all enumerated instances; exact binding of each model to its own structure
     shapes = [(1, 2, 1), (2, 2, 1), (2, 2, 2), (2, 1, 1)]
     insts = kalman.plan_exact(rng, per_combo=1 if quick else 3, cals_per_combo=2 if quick else 5, shapes=shapes,
-                              kinds=(None, None, "decoupled", "scalarjac"), p_lam_one=0.6)
+                              kinds=(None, None, "decoupled", "scalarjac"), p_lam_one=0.6, p_diffuse=0.35)
     res, dropped, st, gen, fail = kalman.eval_exact(insts, laws=True)
     rep.states += st
     rep.transitions += gen
